@@ -77,7 +77,8 @@ def gen_events(rng, prog, n):
                 acts = c01.event_actions(prev, cur)
                 desc = ["shadow-builtin", u]
             else:
-                cur["defs"][u] = dict(kind="var", where=where, value=rng.randint(1, 9))
+                # (sometimes the name is defined with the value None: a definition all the same)
+                cur["defs"][u] = dict(kind="var", where=where, value=(None if rng.random() < 0.35 else rng.randint(1, 9)))
                 cur["order"] = [u] + cur["order"]
                 acts = [["setvar", where, u, repr(cur["defs"][u]["value"])]]
                 desc = ["define-undefined-symbol", u]
@@ -234,6 +235,25 @@ def directed_scenarios():
                [["edit", "var", "V1"], c01.event_actions(c1, c2), c2, {"c1": "m1"}, ["c1"]],
                [["edit", "var", "V1"], [], c2, {"c1": "m1"}, None]]
         out.append(dict(note="clone kept unused across A -> B -> A", program=c0, events=evs))
+    # a name that was undefined is defined with the value None (module variable and module attribute of the helper module)
+    n0 = dict(defs={"m1": f("memento", [["U1", "bare"]]), "m2": f("memento", [["m1", "bare"]])}, order=["m1", "m2"], late=["U1"])
+    n1 = copy.deepcopy(n0); n1["defs"]["U1"] = dict(kind="var", where="mod", value=None); n1["order"] = ["U1", "m1", "m2"]
+    n2 = copy.deepcopy(n1); n2["defs"]["U1"]["value"] = 4
+    out.append(dict(note="undefined name defined as None", program=n0,
+                    events=[[["define-undefined-symbol", "U1"], [["setvar", "mod", "U1", "None"]], n1, {}],
+                            [["edit", "var", "U1"], c01.event_actions(n1, n2), n2, {}]]))
+    # a clone and the function itself, both alive, a helper edited: whichever is asked second must refresh its reference too
+    for first in ("c1", "m1"):
+        r0 = dict(defs={"h1": f("plain", []), "m1": f("memento", [["h1", "bare"]]), "m2": f("memento", [["m1", "bare"]])}, order=["h1", "m1", "m2"])
+        r1 = copy.deepcopy(r0); r1["defs"]["h1"]["const"] = 5
+        r2 = copy.deepcopy(r1); r2["defs"]["h1"]["const"] = 6
+        second = "m1" if first == "c1" else "c1"
+        out.append(dict(note="clone and original asked in turn after an edit", program=r0,
+                        events=[[["create-partial", "c1", "m1"], [["clone", "c1", "m1", "partial"]], r0, {"c1": "m1"}],
+                                [["edit", "const", "h1"], c01.event_actions(r0, r1), r1, {"c1": "m1"}, [first]],
+                                [["edit", "const", "h1"], [], r1, {"c1": "m1"}, [second]],
+                                [["edit", "const", "h1"], c01.event_actions(r1, r2), r2, {"c1": "m1"}, [second]],
+                                [["edit", "const", "h1"], [], r2, {"c1": "m1"}, None]]))
     # a builtin name used by a function is shadowed by a function of the module
     s0 = dict(defs={"m1": f("memento", [["abs", "bare"]]), "m2": f("memento", [["m1", "bare"]])}, order=["m1", "m2"], late_builtin=["abs"])
     s1 = copy.deepcopy(s0); s1["defs"]["abs"] = f("plain", [], const=4); s1["order"] = ["abs", "m1", "m2"]
